@@ -2,6 +2,10 @@
   C17 — the command-line calculator reports what the library computes and never crashes.
 -/
 import Cvss.Model.Cli
+import Cvss.Lemmas.Construct
+import Cvss.Props.C10
+import Cvss.Props.C16
+import Cvss.Lemmas.Cli
 namespace Cvss.Props.C17
 open Cvss Cvss.Model Cvss.Model.Cli
 
@@ -20,7 +24,115 @@ theorem main_with_vector (f : Flags) (s : Str) (stdin : List Str) (hs : s ≠ []
       | some ls => .lines ls
       | none => .crash := by
   simp only [main, hv, hs]
-  simp [hs]
+  simp
   rfl
+
+/-- the lines printed for a score slot: name, padding to column 24, the score as the API's float prints, and
+    (v3/v4) the rating in parentheses -/
+def scoreLine (v : Interactive.IVer) (o : AnyObj) (p : Str × Nat) : Option Str :=
+  match scoreText v o p.2 with
+  | none => none
+  | some t => some (p.1 ++ c!":" ++ List.replicate (PAD - p.1.length - 2) ' ' ++ t)
+
+/-- VALID VECTOR: the report consists of the class header, one line per score the API's `scores()` has (with the
+    rating from `severities()`), the API's clean vector and Red Hat vector, and with `-j` the
+    `json.dumps(indent=2)` lines of the API's sorted minimal `as_json()` -/
+theorem report_valid (f : Flags) (s : Str) (o : AnyObj) (h : construct (classOf (version f)) s = .ok o) :
+    report f s =
+      (if f.json then (o.asJson true true).map (fun j =>
+          [match version f with | .i2 => c!"CVSS2" | .i4 => c!"CVSS4" | _ => c!"CVSS3"] ++
+          scoreNames.zipIdx.filterMap (scoreLine (version f) o) ++
+          [c!"Cleaned vector:        " ++ o.clean, c!"Red Hat vector:        " ++ o.rh] ++
+          [c!"CVSS vector in JSON:"] ++ jsonLines j)
+       else some (
+          [match version f with | .i2 => c!"CVSS2" | .i4 => c!"CVSS4" | _ => c!"CVSS3"] ++
+          scoreNames.zipIdx.filterMap (scoreLine (version f) o) ++
+          [c!"Cleaned vector:        " ++ o.clean, c!"Red Hat vector:        " ++ o.rh])) := by
+  unfold report
+  simp only [h]
+  cases f.json with
+  | false => rfl
+  | true => cases hj : o.asJson true true <;> rfl
+
+/-- INVALID VECTOR: exactly one line, the library's error message -/
+theorem report_invalid (f : Flags) (s : Str) (e : Err) (h : construct (classOf (version f)) s = .error e)
+    (he : e ≠ .foreign) : report f s = some [errorLine] := by
+  cases e <;> first | exact absurd rfl he | simp only [report, h]
+
+/-- without `-v` (or with an empty VECTOR) the vector comes from the interactive builder for the selected
+    version; end of input there ends the program cleanly -/
+theorem main_interactive (f : Flags) (stdin : List Str) (hv : f.vector = none ∨ f.vector = some []) :
+    main f stdin =
+      match Interactive.ask (version f) f.all stdin with
+      | .eof _ => .eof
+      | .keyError => .crash
+      | .result s _ _ => (match report f s with | some ls => .lines ls | none => .crash) := by
+  unfold main
+  rcases hv with hv | hv <;> rw [hv] <;> rfl
+
+/-- `as_json` of an object constructed by the v2 / v3 class never fails -/
+theorem construct_asJson_isSome (v : Ver) (hv : v ≠ .v4) (s : Str) (o : AnyObj) (h : construct v s = .ok o)
+    (sort minimal : Bool) : ∃ j, o.asJson sort minimal = some j := by
+  cases v with
+  | v2 =>
+    simp only [construct] at h
+    cases hc : V2.construct s with
+    | error e => rw [hc] at h; cases h
+    | ok o2 =>
+      rw [hc] at h
+      cases h
+      obtain ⟨j, hj, -⟩ := C10.v2_json_valid s o2 hc sort minimal
+      exact ⟨j, hj⟩
+  | v3 =>
+    simp only [construct] at h
+    cases hc : V3.construct s with
+    | error e => rw [hc] at h; cases h
+    | ok o3 =>
+      rw [hc] at h
+      cases h
+      obtain ⟨j, hj, -⟩ := C10.v3_json_valid s o3 hc sort minimal
+      exact ⟨j, hj⟩
+  | v4 => exact absurd rfl hv
+
+theorem classOf_ne_v4 (v : Interactive.IVer) (hv : v ≠ .i4) : classOf v ≠ .v4 := by
+  cases v <;> simp_all [classOf]
+
+/-- with CVSS2 / CVSS3 selected the report never lets an exception escape -/
+theorem report_ne_none (f : Flags) (hv : version f ≠ .i4) (s : Str) : report f s ≠ none := by
+  have hcls := classOf_ne_v4 _ hv
+  cases hc : construct (classOf (version f)) s with
+  | error e =>
+    have he : e ≠ .foreign := by
+      rcases Lemmas.Cli.construct_error _ hcls s e hc with rfl | rfl <;> simp
+    rw [report_invalid f s e hc he]
+    simp
+  | ok o =>
+    obtain ⟨j, hj⟩ := construct_asJson_isSome _ hcls s o hc true true
+    rw [report_valid f s o hc, hj]
+    cases f.json <;> simp
+
+/-- NEVER CRASHES (CVSS2 / CVSS3 selected; the CVSS4 case needs C02's totality of v4 scoring):
+    for every flag set, every VECTOR and every stdin the calculator ends with a report or a clean EOF -/
+theorem main_never_crashes (f : Flags) (stdin : List Str) (hv : version f ≠ .i4) : main f stdin ≠ .crash := by
+  have hr := report_ne_none f hv
+  have hcase : ∀ s, (match report f s with | some ls => Outcome.lines ls | none => Outcome.crash) ≠ .crash := by
+    intro s
+    cases hrep : report f s with
+    | none => exact absurd hrep (hr s)
+    | some ls => simp
+  by_cases hvec : f.vector = none ∨ f.vector = some []
+  · rw [main_interactive f stdin hvec]
+    cases hask : Interactive.ask (version f) f.all stdin with
+    | eof a => simp
+    | keyError => exact absurd hask (C16.ask_never_keyError _ _ _)
+    | result s n a => exact hcase s
+  · cases hvs : f.vector with
+    | none => exact absurd (Or.inl hvs) hvec
+    | some s =>
+      have hs : s ≠ [] := by
+        rintro rfl
+        exact hvec (Or.inr hvs)
+      rw [main_with_vector f s stdin hs hvs]
+      exact hcase s
 
 end Cvss.Props.C17
